@@ -21,6 +21,13 @@ class ServeErr(Exception):
         self.code = code
 
 
+class FalsyServeErr(ServeErr):
+    """a falsy exception object (container-like): still a failure"""
+    def __len__(self):
+        return 0
+
+
+
 def serve_value(x):
     return 7 * x + 3
 
@@ -96,7 +103,7 @@ class FakeServlet:
             if x in self.gates:
                 self.gates[x].set()          # callers gated on this request arrive now
             if x in self.fail:
-                y = ServeErr(self.fail[x])
+                y = (FalsyServeErr if self.fail[x] % 4 == 3 else ServeErr)(self.fail[x])
             else:
                 y = serve_value(x)
             self.q_out.put((uid, y))
